@@ -156,7 +156,8 @@ def run(ctx):
             proof_ok = False
             broken.append(("Properties/C19gen.v: theorem C19 over the model generated from the working tree", pr_gen["log"]))
     ctx.assumptions = ["Print Assumptions: " + a for a in assumptions] + [
-        "fit_dtype is called with Python ints (unbounded); NumPy scalar arguments are out of scope",
+        "the model's bounds are unbounded integers; the code is called with Python ints and, for every grid point, with NumPy integer "
+        "scalars of the two narrowest dtypes holding each bound (same expected answer)",
     ]
     ctx.coverage["print_assumptions"] = assumptions
 
@@ -167,6 +168,12 @@ def run(ctx):
     vals = grid_values(gen.get("literals") or [], ctx.tier)
     cases, samples, wrong = [], [], []
     n_err = 0
+    n_scalar = 0
+    import warnings
+    import numpy
+
+    def holders(v):
+        return [d for d in ("int8", "uint8", "int16", "uint16", "int32", "uint32", "int64", "uint64") if numpy.iinfo(d).min <= v <= numpy.iinfo(d).max]
     for mx in vals:
         for mn in vals:
             if not in_domain(mx, mn):
@@ -180,6 +187,21 @@ def run(ctx):
                 want = oracle(mx, mn)
                 if got != want:
                     wrong.append({"max": mx, "min": mn, "one_argument_call": onearg, "observed": got, "expected": want})
+                # the same bounds handed over as NumPy integer scalars (what to_array / collapsed / save pass when the
+                # values come out of arrays): arithmetic on such a scalar wraps in ITS type (seeded c19h), comparisons do not
+                for dx in holders(mx)[:2]:
+                    for dn in ([None] if onearg else holders(mn)[:2]):
+                        n_scalar += 1
+                        try:
+                            with warnings.catch_warnings():
+                                warnings.simplefilter("ignore")
+                                a = numpy.dtype(dx).type(mx)
+                                g2 = (fit_dtype(a) if onearg else fit_dtype(a, numpy.dtype(dn).type(mn))).name
+                        except Exception as e:
+                            g2 = "raised:" + type(e).__name__
+                        if g2 != want:
+                            wrong.append({"max": mx, "min": mn, "one_argument_call": onearg, "observed": g2, "expected": want,
+                                          "max_form": "numpy." + dx, "min_form": None if dn is None else "numpy." + dn})
                 code = DT_CODE.get(got, 0)
                 cases.append("(%s, %s, %s)" % (core.zlit(mx), core.zlit(mn), core.zlit(code)))
                 ctx.nontrivial.add((mx, mn, onearg))
@@ -236,6 +258,7 @@ def run(ctx):
     ctx.coverage["exhaustive"] = True
     ctx.coverage["grid_values"] = len(vals)
     ctx.coverage["impl_raised"] = n_err
+    ctx.coverage["numpy_scalar_form_calls"] = n_scalar
 
     # ---- verdict ----
     if caller_wrong:
@@ -273,7 +296,21 @@ def replay(ctx, path):
     for c in r.get("failing_inputs", []):
         if "max" not in c:
             continue
-        got = (fit_dtype(c["max"]) if c.get("one_argument_call") else fit_dtype(c["max"], c["min"])).name
+        import warnings
+        import numpy
+        mxv, mnv = c["max"], c["min"]
+        if c.get("max_form"):
+            with warnings.catch_warnings():
+                warnings.simplefilter("ignore")
+                mxv = numpy.dtype(c["max_form"].split(".")[1]).type(mxv)
+                if c.get("min_form"):
+                    mnv = numpy.dtype(c["min_form"].split(".")[1]).type(mnv)
+        try:
+            with warnings.catch_warnings():
+                warnings.simplefilter("ignore")
+                got = (fit_dtype(mxv) if c.get("one_argument_call") else fit_dtype(mxv, mnv)).name
+        except Exception as e:
+            got = "raised:" + type(e).__name__
         want = oracle(c["max"], c["min"])
         print("fit_dtype(%d, %d) = %s, narrowest sufficient = %s" % (c["max"], c["min"], got, want))
         if got != want:
